@@ -187,6 +187,10 @@ def units(w):
     for with_env in (False, True):
         for outcome in ("any", "syntax"):
             U.append(interp_unit(with_env, outcome))
+    # a loop aborted by an error leaves the scope as it found it (the loop variable gone, a definition it hid back): the scope
+    # frame obligation of the `for` units of C04, which covers every way of leaving the loop
+    from . import c04
+    U.extend(u for u in c04.units(w) if u.name in ("nodes.py::NodeFor.evaluate[list]", "nodes.py::NodeFor.evaluate[set]"))
     return U
 
 
@@ -235,7 +239,9 @@ def bounded(tier, seed):
                 f.write(txt)
         CMDS = {"define": "def v = 1", "define2": "def w = v + 1", "assign": "v = v + 10", "read": "v", "call": "inc2(1)", "deffn": "def inc2(x) x + 2",
                 "fail": "def early = 5; undefined_name; def late = 6", "syntax": "def s = (", "good": "require good; good->gv", "missing": "require nosuchmodule",
-                "broken": "require broken", "raising": "require raising", "cycle": "require cyca", "loopabort": "for i in [1, 2] do def li = i; error 'x' end"}
+                "broken": "require broken", "raising": "require raising", "cycle": "require cyca", "loopabort": "for i in [1, 2] do def li = i; error 'x' end",
+                # a definition named like the loop variable of the aborted loop, and reading it
+                "defi": "def i = 77", "readi": "i", "loopdone": "for i in [5, 6] do 0 end"}
 
         def new():
             I = interp.Interpreter(True, False)
@@ -302,8 +308,15 @@ def bounded(tier, seed):
                 st["good"] = "module"
                 return st, "ok"
             if cmd == "loopabort":
-                st["li"] = 1
+                st["li"] = 1          # (the loop variable i is gone / an earlier definition of i is back)
                 return st, "rt"
+            if cmd == "defi":
+                st["i"] = 77
+                return st, "ok"
+            if cmd == "readi":
+                return st, "ok" if "i" in st else "rt"
+            if cmd == "loopdone":
+                return st, "ok"
             if cmd == "broken":
                 return st, "syn"
             return st, "rt"        # missing, raising, cycle: nothing stays
